@@ -99,6 +99,16 @@ func scenarios() []scenario {
 	simple("nested", resp("200 OK", ct, `{"a":{"b":[1,"x",{"c":null}]},"id":"https://f.example/nested","s":"a } \" { b"}`))
 	simple("trailing-garbage", resp("200 OK", ct, `{"a":1}   trailing bytes after the object`))
 	simple("big", resp("200 OK", ct, `{"pad":"`+strings.Repeat("z", 4000)+`"}`))
+	// a header block of many read buffers before the content type
+	{
+		var hs []string
+		for i := 0; i < 100; i++ {
+			hs = append(hs, fmt.Sprintf("X-Pad-%d: %s", i, strings.Repeat("p", 1000)))
+		}
+		simple("long-headers", resp("200 OK", append(hs, ct...), `{"id":"https://f.example/long-headers","type":"Note"}`))
+	}
+	// a document of many read buffers: a peer can trickle it a whole buffer at a time
+	simple("huge", resp("200 OK", ct, `{"pad":"`+strings.Repeat("z", 90000)+`"}`))
 	simple("lf-only", []byte("HTTP/1.0 200 OK\nContent-Type: application/json\n\n{\"lf\":true}"))
 	// peers that do not speak HTTP: a first line of text in another script (many bytes, few
 	// characters), of accented letters, of bytes that are no text at all, and a very long one
@@ -239,6 +249,9 @@ func (w *faultWorld) Serve(addr string, request []byte) verifrt.Script {
 			sc.Cut, sc.End = w.f.At, verifrt.EndStall
 		case "trickle":
 			sc.TrickleFrom, sc.TrickleDelay = w.f.At, timeout*6/10
+		case "trickle-4096", "trickle-5000", "trickle-8192", "trickle-1048576":
+			sc.TrickleFrom, sc.TrickleDelay = w.f.At, timeout*6/10
+			fmt.Sscanf(w.f.Kind, "trickle-%d", &sc.TrickleBurst)
 		}
 	}
 	return sc
@@ -415,7 +428,7 @@ func main() {
 	envaDir := enva.Reexec()
 	r := ev.New("C05", "fault_enumeration",
 		"corpus of 16 exchanges (6 single responses incl. nested, trailing-garbage, 4 kB and LF-only; 4 first lines that are not HTTP: CJK text, accented letters, bytes that are no text, 300 letters; a 3-hop and a 7-hop redirect chain; a webfinger lookup; pub.New on an actor with an outbox, on a post with separately fetched replies and on a post with a separately fetched author, all then shown in full, as previews and with their children); "+
-			"faults: cut after every byte k of every response with FIN, with RST and as a stall, trickle (one byte per 0.6 x timeout) from 3 start points, connection refused and connection stall, at every hop; "+
+			"faults: cut after every byte k of every response with FIN, with RST and as a stall, trickle (one byte, or a burst of 4096, 5000, 8192 bytes or as much as the reader asks for, per 0.6 x timeout; one document is 90 kB long, one has 100 kB of headers) from 3 start points, connection refused and connection stall, at every hop; "+
 			"virtual-time connections: a stalled read times out iff a deadline is armed; Env-A: one real-time case per stall stage (before/in status line, headers, after headers, body, trickle, truncated body, no TLS handshake) over real TLS with a 1 s timeout; distinct_nontrivial = fault points inside a response (not before byte 0 or after the last byte)")
 	if *ev.FlagReplay != "" {
 		var d struct {
@@ -444,6 +457,12 @@ func main() {
 				if sc.Name == "big" && !r.Thorough() {
 					st = 7
 				}
+				if sc.Name == "huge" || sc.Name == "long-headers" {
+					st = 1009
+					if r.Thorough() {
+						st = 101
+					}
+				}
 				for k := 0; k <= len(raw); k += st {
 					runCase(r, sc, fault{Hop: hop, Kind: kind, At: k})
 					if k > 0 && k < len(raw) {
@@ -453,6 +472,9 @@ func main() {
 			}
 			for _, k := range []int{0, len(raw) / 2, len(raw) - 3} {
 				runCase(r, sc, fault{Hop: hop, Kind: "trickle", At: k})
+				for _, burst := range []string{"trickle-4096", "trickle-5000", "trickle-8192", "trickle-1048576"} {
+					runCase(r, sc, fault{Hop: hop, Kind: burst, At: k})
+				}
 			}
 			runCase(r, sc, fault{Hop: hop, Kind: "refuse"})
 			runCase(r, sc, fault{Hop: hop, Kind: "stall-connect"})
